@@ -62,7 +62,7 @@ func runC16(c *Ctx) {
 	c.Rule("C16.O14", "E4", "ClientConn.onResponse: with no request left the read deadline is set on both edges of IdleConnTimeout > 0 (idle timeout, or cleared: the answered request's deadline must not survive); the next pipelined request's deadline is armed only on the Timeout > 0 edge (with no timeout configured there is no deadline to arm, and the send time itself is already in the past)", 2)
 	c.Rule("C16.O15", "E4", "the WebSocket keep-alive is renewed by every message: the renewal in handleWsMessage is guarded by KeepaliveTime > 0 and by nothing that depends on the clock or on earlier renewals", 1)
 	c16Round5(c)
-	c.Rule("C16.O16", "E4", "a client request's deadline is armed on the connection that is read: ClientConn.Do sets the read deadline on ClientConn.conn on the Timeout > 0 edge both for a request on an open connection and for the request that dials (a deadline set on the std connection before the transfer to the poller is lost with it)", 1)
+	c.Rule("C16.O16", "E4", "a client request's deadline is armed on the connection that is read: ClientConn.Do sets the read deadline on ClientConn.conn on the Timeout > 0 edge both for a request on an open connection and for the request that dials (a deadline set on the std connection before the transfer to the poller is lost with it); on an open connection with no request Timeout the (idle) read deadline is cleared before the request is sent", 2)
 	c16ClientDeadline(c)
 	c.Rule("C16.O17", "E4,E1", "flush cancels the write deadline on the edge on which it has drained the queue (the write the deadline was set for is complete), under Conn.mux", 1)
 	c16FlushMeetsTheDeadline(c)
@@ -922,12 +922,43 @@ func c16ClientDeadline(c *Ctx) {
 			}
 			if gi.HasFact(cs.In, func(ft ir.Fact) bool {
 				cmp, ok := ir.DecodeIntCmp(ft.Cond)
-				return ok && cmp.Holds(1) == ft.Truth && cmp.Holds(0) != ft.Truth
+				return ok && isClientTimeout(c, cmp.Expr) && cmp.Holds(1) == ft.Truth && cmp.Holds(0) != ft.Truth
 			}) {
 				n++
 			}
 		}
 	}
+	// the open-connection path: the idle deadline does not run on while a request is in flight.
+	// With no request Timeout the read deadline is cleared (a SetReadDeadline on the Timeout <= 0 edge).
+	cleared := 0
+	for _, g := range ir.WithClosures(fn) {
+		gi := c.P.Info(g)
+		for _, cs := range c.P.Calls(g, func(name string, _ ir.CallSite) bool { return strings.HasSuffix(name, ".SetReadDeadline") }) {
+			if !cs.Common.IsInvoke() || c.P.LoadedField(ir.Resolve(cs.Common.Value)) != "nbhttp.ClientConn.conn" {
+				continue
+			}
+			if gi.HasFact(cs.In, func(ft ir.Fact) bool {
+				cmp, ok := ir.DecodeIntCmp(ft.Cond)
+				return ok && isClientTimeout(c, cmp.Expr) && cmp.Holds(0) == ft.Truth && cmp.Holds(1) != ft.Truth
+			}) {
+				cleared++
+			}
+		}
+	}
+	c.Cond(cleared >= 1, "C16.O16", fnKey(c.P, fn, "the idle deadline is cleared when no request timeout replaces it"), c.FnPos(fn), fmt.Sprintf("%d SetReadDeadline(c.conn) site(s) on the Timeout <= 0 edge", cleared),
+		"ClientConn.Do touches the read deadline of an open connection only when a request Timeout is configured: with IdleConnTimeout alone the idle deadline armed after the last response keeps running while the next request is in flight, and the connection is closed with 'read timeout' in the middle of a request although no request timeout exists (IdleConnTimeout 500 ms, second request 200 ms later, answered after 900 ms: read timeout)")
 	c.Cond(n >= 2, "C16.O16", fnKey(c.P, fn, "deadline on ClientConn.conn on both paths"), c.FnPos(fn), fmt.Sprintf("%d SetReadDeadline(c.conn) site(s) on the Timeout > 0 edge", n),
 		fmt.Sprintf("ClientConn.Do arms the request's read deadline on ClientConn.conn at %d site(s); the open-connection path and the dialing path each need one: the deadline the dialing path sets on the std connection is lost when NBConn duplicates the descriptor and closes it, so Timeout is not enforced for the request that dials", n))
+}
+
+// isClientTimeout: v is ClientConn.Timeout (possibly through a local or a captured variable).
+func isClientTimeout(c *Ctx, v ssa.Value) bool {
+	r := ir.Resolve(v)
+	if c.P.LoadedField(r) == "nbhttp.ClientConn.Timeout" {
+		return true
+	}
+	if rs := ir.ReachingStore(v); rs != nil && c.P.LoadedField(ir.Resolve(rs)) == "nbhttp.ClientConn.Timeout" {
+		return true
+	}
+	return false
 }
